@@ -55,7 +55,8 @@ logging.getLogger("aiohttp.internal").disabled = True
 
 
 # ------------------------------------------------------------------------------------------------
-# known findings
+# known findings (C08-limit0-stuck-pause is fixed by b609c8c; the signature stays for the record and
+# matches nothing while the entry is not open)
 
 def _sig_limit_zero_stuck(case, params):
     return case.get("kind") == "not_stuck" and int(case.get("limit", -1)) == 0
@@ -564,7 +565,7 @@ def shrink(loop, limit, toks, kind):
 
 
 def check_cases(ctx, exe, loop, suite, cases, use_tasks=False):
-    model = run_model_cases(exe, cases)
+    model = run_model_cases(exe, cases) if exe else [(None, None)] * len(cases)
     ran = 0
     for (limit, toks), (mobs, losts) in zip(cases, model):
         try:
@@ -585,7 +586,7 @@ def check_cases(ctx, exe, loop, suite, cases, use_tasks=False):
                 ctx.count("error:" + x.split(":")[2 if x.startswith("D:x:") else 1].split(",")[0].rstrip("0123456789"))
             elif x in ("B", "P"):
                 ctx.count("blocked")
-        if iobs != mobs:
+        if mobs is not None and iobs != mobs:
             k = next((i for i, (a, b) in enumerate(zip(iobs, mobs)) if a != b), min(len(iobs), len(mobs)))
             ctx.disagreement(suite, {"limit": limit, "ops": toks[:k + 1]}, mobs[:k + 1][-3:], iobs[:k + 1][-3:])
         seen = set()
@@ -731,7 +732,7 @@ def run(ctx):
     ok, exe = build_model()
     ctx.oblige("model-runner-build", "correspondence", ok, "" if ok else exe)
     if not ok:
-        return
+        exe = None      # no model: the property oracle still searches the implementation
     from harness.common.loop import VLoop
     loop = VLoop()
     asyncio.set_event_loop(loop)
